@@ -131,10 +131,21 @@ def call_ccp(G, pos, aid):
         if b[0] == 'R': kw['bounds'] = [np.array(b[1][0:2]), np.array(b[1][2:4])]
         else: kw['bounds'] = [np.array(p) for p in b[1]]
     if aid.get('qtree'): kw['qtree'] = G.q
+    apos = np.array(pos)
+    keep_pos = apos.copy()
+    keep_cols = list(kw['columns']) if 'columns' in kw else None
+    keep_bounds = [np.array(b).copy() for b in kw['bounds']] if 'bounds' in kw else None
+    ncols = len(g.columnlist)
     try:
-        r = g.column_containing_point(np.array(pos), **kw)
+        r = g.column_containing_point(apos, **kw)
     except Exception as e:
         return 'RAISE ' + type(e).__name__
+    # caller-owned arguments and the geometry's own column list are left as they were
+    if not np.array_equal(keep_pos, apos) or (keep_cols is not None and (len(keep_cols) != len(kw['columns']) or any(a is not b for a, b in zip(keep_cols, kw['columns'])))) \
+            or (keep_bounds is not None and any(not np.array_equal(a, b) for a, b in zip(keep_bounds, kw['bounds']))) \
+            or len(g.columnlist) != ncols:
+        return 'RAISE ArgumentsModified'
+    if r is not None and id(r) not in G.index: return 'RAISE ColumnNotInGeometry'
     return None if r is None else G.index[id(r)]
 
 
@@ -864,3 +875,172 @@ def _prim_task(spec, repo, seed, n):
         lines.append('bp\t%s' % ' '.join(ptstr(p) for p in c.polygon))
         impl.append(rect_canon(bp)); meta.append(('bounds_of_points', None, c.name))
     return {'lines': lines, 'impl': impl, 'meta': meta, 'counts': cnt}
+
+
+# ---------------------------------------------------------------------------
+# sequences on ONE geometry object: queries, an edit that removes the column just found, queries again.
+# The property quantifies over all geometries, refined / edited ones included, and an answer must not depend on
+# what the object was asked before (state kept between calls), on other live geometries, or change the arguments.
+def seq_task(args):
+    spec, repo, seed, n = args
+    try:
+        return run_sequence(spec, repo, seed=seed, rounds=n)
+    except Exception:
+        return {'crash': traceback.format_exc()}
+
+
+def _pt_in_poly(P, rng):
+    ws = [rng.random() + 0.05 for _ in P]
+    s = sum(ws)
+    return [sum(wk * p[0] for wk, p in zip(ws, P)) / s, sum(wk * p[1] for wk, p in zip(ws, P)) / s]
+
+
+def _check3d(G, pos, z, useq, fails, inp, stage):
+    """block_name_containing_point against exhaustive search on the geometry AS IT IS NOW"""
+    g = G.geo
+    lays = g.layerlist
+    Tset = G.truth(pos)
+    T = Tset[0] if len(Tset) == 1 else None
+    exp, strict = expected_block(G, T, z)
+    want = None if exp is None else g.block_name(lays[exp[0]].name, G.cols[exp[1]].name)
+    if T is not None and G.cols[T].surface is not None and abs(z - G.cols[T].surface) < 1e-6 * max(1.0, abs(lays[0].bottom - lays[-1].bottom)):
+        return None, None            # within tolerance of the surface: outside the property
+    p3 = np.array([pos[0], pos[1], z])
+    keep = p3.copy()
+    try: r = g.block_name_containing_point(p3, qtree=g.column_quadtree() if useq else None)
+    except Exception as e: r = 'RAISE ' + type(e).__name__
+    if not np.array_equal(keep, p3):
+        fails.append(('sequence', 'block_name_containing_point:changes-its-argument', inp, 'pos became %r' % (list(p3),), 'arguments are not modified'))
+    if r != want:
+        key = 'block_name_containing_point:%s' % stage
+        if r is not None and not (isinstance(r, str) and r.startswith('RAISE')) and r not in g.block_name_index:
+            key += ':block-not-in-geometry'
+        fails.append(('sequence', key, inp, 'block_name_containing_point -> %r' % (r,),
+                      'the unique block of the (edited) geometry containing the point: %r' % (want,)))
+    return r, want
+
+
+def run_sequence(spec, repo, seed=0, rounds=3, steps=None):
+    """Either generate (seed, rounds) or re-execute (steps) a sequence on one geometry object.
+    A step is ['q', x, y, z, useq] (3-D query), ['q2', x, y] (2-D queries with aids), ['refine', rank],
+    ['delete', rank], ['other'] (build and query an unrelated geometry), ['track', x0, y0, x1, y1]."""
+    from c12_geos import build_geo
+    from collections import Counter
+    g = build_geo(spec, repo)
+    rng = random.Random(seed)
+    out = new_out()
+    cnt = out['counts']
+    fails = out['failures']
+    done_steps = []
+    other = [None]
+
+    def ctx(): return GeoCtx(spec, repo, geo=g)
+
+    def inp(): return {'geometry': spec, 'sequence': [list(s_) for s_ in done_steps]}
+
+    def do(step, G):
+        kind = step[0]
+        done_steps.append(step)
+        if kind == 'q':
+            _check3d(G, [step[1], step[2]], step[3], bool(step[4]), fails, inp(), 'wrong-block-after-%s' % last_edit[0])
+            cnt['seq_queries'] += 1
+        elif kind == 'q2':
+            pos = [step[1], step[2]]
+            sub = new_out()
+            Tset = G.truth(pos)
+            T = Tset[0] if len(Tset) == 1 else None
+            eval_point(G, pos, make_aids(G, random.Random(17), T), 'sequence', sub, check_corr=False)
+            for f in sub['failures']:
+                i2 = dict(f[2]); i2['sequence'] = inp()['sequence']
+                fails.append((f[0], f[1], i2, f[3], f[4]))
+            cnt['seq_queries'] += sub['counts']['queries']
+        elif kind == 'track':
+            l0, l1 = [step[1], step[2]], [step[3], step[4]]
+            a0, a1 = np.array(l0), np.array(l1)
+            k0, k1 = a0.copy(), a1.copy()
+            try:
+                t = G.geo.column_track([a0, a1])
+                tr = [(G.index[id(c)], (float(a[0]), float(a[1])), (float(b[0]), float(b[1]))) for (c, a, b) in t]
+                exp = expected_track(G, l0, l1)
+                if not any(niv > 1 for tin, tout, i, niv, tl in exp):
+                    check_track(G, l0, l1, tr, exp, lambda k, o, r_: fails.append(('sequence', k, inp(), o, r_)))
+            except KeyError:
+                fails.append(('sequence', 'column_track:lists-column-not-in-geometry', inp(), 'a listed column is not in geo.columnlist', 'columns of the geometry'))
+            except Exception as e:
+                fails.append(('sequence', 'column_track:raises', inp(), repr(e)[:200], 'a track'))
+            if not (np.array_equal(k0, a0) and np.array_equal(k1, a1)):
+                fails.append(('sequence', 'column_track:changes-its-argument', inp(), 'line changed', 'arguments are not modified'))
+            cnt['seq_queries'] += 1
+        elif kind == 'other':
+            # an unrelated live geometry, queried in between: nothing may leak from one object to another
+            if other[0] is None:
+                from mulgrids import mulgrid
+                other[0] = mulgrid().rectangular([7.0] * 3, [9.0] * 2, [1.0] * 2, origin=[float(G.bounds[0]), float(G.bounds[1]), 0.0])
+            o = other[0]
+            o.block_name_containing_point(np.array([float(G.bounds[0]) + 3.0, float(G.bounds[1]) + 4.0, -0.5]))
+            o.column_containing_point(np.array([float(G.bounds[0]) + 10.0, float(G.bounds[1]) + 4.0]))
+        elif kind in ('refine', 'delete'):
+            col = G.cols[G.order[step[1]]]
+            if kind == 'refine': g.refine([col])
+            else: g.delete_column(col.name)
+            last_edit[0] = kind
+            cnt['seq_edits'] += 1
+        elif kind == 'reread':
+            # the geometry is written out and read back INTO THE SAME (used) object
+            import tempfile, shutil
+            d = tempfile.mkdtemp()
+            try:
+                fn = os.path.join(d, 'g.dat')
+                g.write(fn)
+                g.read(fn)
+                last_edit[0] = 'reread'
+                cnt['seq_edits'] += 1
+            except Exception:
+                cnt['seq_reread_not_possible'] += 1
+            finally:
+                shutil.rmtree(d, ignore_errors=True)
+
+    last_edit = ['construction']
+    if steps is not None:
+        for st in steps:
+            do(list(st), ctx())
+        return out
+    lays = g.layerlist
+    for _ in range(rounds):
+        G = ctx()
+        if G.n < 4: break
+        # a 3-D point in a random column X ...
+        r = rng.randrange(G.n)
+        i = G.order[r]
+        tries = 0
+        while True:
+            tries += 1
+            p = _pt_in_poly(G.polyg[i], rng)
+            if G.edge_clearance(p) >= 4.0 or tries > 50: break
+        if tries > 50: continue
+        surf = G.cols[i].surface
+        li = rng.randrange(1, len(lays))
+        z = lays[li].bottom + rng.uniform(0.2, 0.8) * (lays[li].top - lays[li].bottom)
+        useq = rng.random() < 0.3
+        if rng.random() < 0.5: do(['other'], G)
+        do(['q', p[0], p[1], float(z), int(useq)], G)
+        oldpoly = G.polyg[i]
+        # ... the column is removed from the geometry ...
+        u = rng.random()
+        if u < 0.15 and spec.get('translate') is None: do(['reread'], G)
+        else: do(['refine' if u < 0.65 else 'delete', r], G)
+        G = ctx()
+        # ... and the first thing asked afterwards is a 3-D point inside X's old footprint (then 2-D aids, a track)
+        for k in range(3):
+            q = _pt_in_poly(oldpoly, rng)
+            if G.edge_clearance(q) < 1.0: continue
+            z2 = lays[li].bottom + rng.uniform(0.2, 0.8) * (lays[li].top - lays[li].bottom)
+            do(['q', q[0], q[1], float(z2), int(rng.random() < 0.3)], G)
+            if k == 0: do(['q', q[0], q[1], float(z2), 0], G)         # and once more: same answer
+            if k == 1: do(['q2', q[0], q[1]], G)
+        a, b = _pt_in_poly(oldpoly, rng), [rng.uniform(G.bounds[0], G.bounds[2]), rng.uniform(G.bounds[1], G.bounds[3])]
+        if G.edge_clearance(a) >= 1.0 and G.edge_clearance(b) >= 1.0 and math.hypot(a[0] - b[0], a[1] - b[1]) > 1e-6 * G.scale:
+            along = any(runs_along_edge(G.polyf[int(j)], a, b, 1e-6 * G.maxside[int(j)] + 1e-9 * G.cmag) for j in range(G.n))
+            if not along: do(['track', a[0], a[1], b[0], b[1]], G)
+        cnt['seq_rounds'] += 1
+    return out
